@@ -92,7 +92,7 @@ def c07_records(tier):
             fbig = (k % 2 == 0) != f32_
             insts.append(("record_float", Instance("op_record_float(s, %d, %s, %s, %s, %d, %s);" % (w0, B[k % 2 == 1], B[fbig], B[f32_], W[(k * 3) % len(W)], B[k % 3 == 0]),
                                                    "u%d | %s %s | i%d: float field at bit offset %d" % (w0, "f32" if f32_ else "f64", "be" if fbig else "le", W[(k * 3) % len(W)], w0 % 8))))
-    for k, (w0, ra, rb) in enumerate([(5, 3, 10), (8, 0, 16), (13, 7, 9), (1, 4, 4)] if q else [(5, 3, 10), (8, 0, 16), (13, 7, 9), (1, 4, 4), (7, 1, 16), (16, 8, 16), (3, 0, 5), (12, 2, 15)]):
+    for k, (w0, ra, rb) in enumerate([(5, 3, 10), (8, 0, 16), (13, 7, 9), (1, 4, 4), (8, 3, 11), (16, 5, 13)] if q else [(5, 3, 10), (8, 0, 16), (13, 7, 9), (1, 4, 4), (8, 3, 11), (16, 5, 13), (7, 1, 16), (16, 8, 16), (3, 0, 5), (12, 2, 15), (24, 7, 15)]):
         insts.append(("record_raw", Instance("op_record_raw(s, %d, %s, %d, %d, %d, %s);" % (w0, B[k % 2 == 0], ra, rb, W[(k * 2 + 1) % 8], B[k % 2 == 1]),
                                              "u%d | raw bits[%d,%d) | byte | u%d" % (w0, ra, rb, W[(k * 2 + 1) % 8]))))
     H = []
